@@ -4,6 +4,7 @@ import (
 	"encoding/hex"
 	"fmt"
 
+	"github.com/ipfs/go-cid"
 	carv2 "github.com/ipld/go-car/v2"
 )
 
@@ -35,8 +36,12 @@ func refSections(input []byte, visit func(code uint64, data []byte)) {
 		p = p[n+int(l):]
 		for len(p) > 0 {
 			l, n := uv(p)
-			if n < 0 || l == 0 || uint64(len(p)-n) < l {
+			if n < 0 || l == 0 {
 				return
+			}
+			short := uint64(len(p)-n) < l
+			if short { // a cut section: its hash function still matters (known or not), and what is left of its data
+				l = uint64(len(p) - n)
 			}
 			sec := p[n : n+int(l)]
 			p = p[n+int(l):]
@@ -112,7 +117,51 @@ func genArchive(g *Gen, maxBlocks int) (roots string, bs []Blk, ver int, dp uint
 // famC02 emits, per generated archive: the intact archive through every reader, every truncation
 // offset and a byte flip at every offset (quick: strided for larger archives), plus raw/mutated
 // byte strings through every reader.
+// bigSectionCases: archives with a section past the sizes where readers may switch strategy
+// (64 KiB, 256 KiB chunks, 1 MiB), cut at sampled offsets inside and around the big section.
+func bigSectionCases(g *Gen, o *Out, thorough bool) {
+	sizes := []int{65500 + g.pick(80), 70000 + g.pick(30000)}
+	if thorough {
+		sizes = append(sizes, 65536, 262144+g.pick(100), 1<<20+g.pick(1000))
+	}
+	for _, sz := range sizes {
+		small := g.Block()
+		big := g.BlockWith(g.bytes(sz))
+		bs := []Blk{small, big, g.Block()}
+		o.HashBlocks(bs)
+		r := []cid.Cid{small.C}
+		v1 := g.pick(2) == 0
+		var arch []byte
+		ver, pend := 1, 0
+		if v1 {
+			arch = writeAll(r, bs, true)
+			pend = len(arch)
+		} else {
+			ver = 2
+			arch = writeAll(r, bs, false)
+			pend = int(leU64(arch[27:35]) + leU64(arch[35:43]))
+		}
+		ro := defaultReadOpts()
+		desc := fmt.Sprintf("roots=%s blocks=%s ver=%d dp=0 arch=%s", rootsArg(r), blocksStr(bs), ver, hex.EncodeToString(arch))
+		// offsets: a few before the big section, inside it at both ends and the middle, after it
+		start := pend - sz - len(bs[2].D) - 200
+		cuts := []int{start, start + 120, start + 200, start + 200 + sz/2, pend - len(bs[2].D) - 100, pend - len(bs[2].D) - 70, pend - 1}
+		for _, k := range cuts {
+			if k < 0 || k >= pend {
+				continue
+			}
+			rd := scanReaders[g.pick(2)]
+			if v1 {
+				rd = scanReaders[g.pick(len(scanReaders))]
+			}
+			o.Line(fmt.Sprintf("mut rd=%s %s %s trunc=%d", rd, ro, desc, k), runReader(rd, ro, arch[:k])+" archok=1")
+			o.Count("trunc-big/" + rd)
+		}
+	}
+}
+
 func famC02(g *Gen, o *Out, n int, thorough bool) {
+	bigSectionCases(g, o, thorough)
 	for c := 0; c < n; c++ {
 		maxB := 4
 		if thorough {
@@ -128,6 +177,9 @@ func famC02(g *Gen, o *Out, n int, thorough bool) {
 		stride := 1
 		if !thorough && pend > 600 {
 			stride = pend / 300
+		}
+		if thorough && pend*pend > 1500000 {
+			stride = pend * pend / 1500000 // every offset of small archives; a bounded script for big ones
 		}
 		pickRd := func() string {
 			if ver == 2 || roots == "nil" || roots == "-" {
